@@ -187,15 +187,22 @@ def main(argv=None):
 
     standin = None
     if errors:
-        for r in errors[:10]:
-            lines.append('CHECKER-ERROR %s: %s' % (r['key'], str(r['error']).split('\n')[0]))
         exit_code = 3
-        # A function that cannot be brought within the verifier's reach (construct
-        # outside the subset, contract that no longer translates): the native
-        # bounded search of the property stands in, labelled bounded.  It can only
-        # turn the checker error into a replayed VIOLATION, never into a pass.
+        # A function that cannot be brought within the verifier's reach on this tree (construct
+        # outside the subset, contract that no longer matches the code's shape): a bounded check
+        # stands in for it - the property's native oracle over its stated bound, labelled
+        # bounded and never counted as proved.  A violation it reproduces is reported; if it
+        # explores its whole bound without one, the run's verdict for that function is
+        # "held within the bound" (NOTE lines, evidence level `other`).  Engine crashes, solver
+        # errors and vacuity stay checker errors.
         structural = [r for r in errors if any(t in str(r['error']) for t in
                                                ('out-of-subset', 'spec-error', 'front-error'))]
+        hard = [r for r in errors if r not in structural]
+        for r in hard[:10]:
+            lines.append('CHECKER-ERROR %s: %s' % (r['key'], str(r['error']).split('\n')[0]))
+        if structural and not entry.get('replay'):
+            for r in structural[:10]:
+                lines.append('CHECKER-ERROR %s: %s' % (r['key'], str(r['error']).split('\n')[0]))
         if structural and entry.get('replay'):
             ob0 = {'name': 'bounded-standin[%s]' % structural[0]['key'], 'kind': 'bounded',
                    'role': 'prop', 'result': 'unknown', 'contract': structural[0]['key']}
@@ -206,11 +213,20 @@ def main(argv=None):
             standin = {'function': structural[0]['key'], 'reason': str(structural[0]['error'])[:200],
                        'kind': 'native bounded search of the property oracle',
                        'status': out.get('status'), 'tried': out.get('tried')}
+            for r in structural[:10]:
+                lines.append('NOTE property=%s %s is outside the verifier\'s reach on this tree (%s): '
+                             'bounded stand-in = native oracle of the property (%s, %s cases)'
+                             % (pid, r['key'], str(r['error']).split('\n')[0][:160], out.get('status'),
+                                out.get('tried')))
             if out.get('status') == 'reproduced':
                 path = write_replay(pid, ob0, out)
                 lines.append('VIOLATION property=%s replay=%s' % (pid, path))
                 violations += 1
                 exit_code = 1
+            elif out.get('status') == 'not-found' and not hard:
+                exit_code = 0
+            else:
+                lines.append('CHECKER-ERROR bounded stand-in did not complete: %s' % str(out)[:200])
 
     # ---- failed obligations: replay / search / verdict
     replay_mod = entry.get('replay')
@@ -387,7 +403,7 @@ def main(argv=None):
     n_ob = len(obs)
     n_pr = len(proved)
     level = entry.get('level', 'proof')
-    if n_pr != n_ob or exit_code == 3:
+    if n_pr != n_ob or exit_code == 3 or standin:
         level_out = 'other'
     else:
         level_out = level
